@@ -87,7 +87,7 @@ def keys (e : DExt κ α) : List κ := (e.ents.map (·.1)).eraseDups
 def validB (e : DExt κ α) : Bool :=
   e.ents.all (fun x => decide (x.2.1 ∈ validClasses e.shp) &&
     (x.2.2.length == (if x.2.1 = gconst then 1 else mult e.shp x.2.1))) &&
-  ((e.ents.map (·.1)).eraseDups.length == e.ents.length)
+  decide ((e.ents.map (·.1)).Nodup)
 
 /-- `DcmMetaExtension.make_empty(shape, affine, None, slice_dim)` (with the F1 repair: a 4-D
     shape always gets its `time` dictionaries) -/
@@ -126,6 +126,15 @@ def getSubset (null : α) (e : DExt κ α) (dim idx : Nat) : Res (DExt κ α) :=
         | none => .ok none
     let ents ← e.ents.mapM step
     pure { r0 with ents := ents.filterMap id }
+
+/-- `filter_meta(filter_func)` for a filter that looks at the key only (as the regex filter does):
+    every valid classification loses exactly the keys the filter returns true for -/
+def filterMeta (e : DExt κ α) (drop : κ → Bool) : DExt κ α :=
+  { e with ents := e.ents.filter fun x => !drop x.1 }
+
+/-- `clear_slice_meta()` -/
+def clearSliceMeta (e : DExt κ α) : DExt κ α :=
+  { e with ents := e.ents.filter fun x => !perSlice x.2.1 }
 
 /-- what input `i` contributes for one key: its per-slice data is ignored when its slice normal
     differs from the result's (`use_slices` false) -/
